@@ -290,6 +290,61 @@ pub fn variant(kind: VKind, name: &str) -> VariantDescr {
 /// variant names chosen so that name order is the reverse of declaration order
 pub const VNAMES: [&str; 4] = ["Zed", "Mid", "Beta", "Alpha"];
 
+/// deduplicated strings inside evolved declarations whose declaration order differs from chunk
+/// order (the string table is shared by all fields and by the header names)
+fn dedup_decls(out: &mut Vec<Decl>) {
+    let d = |n: &str| fld(n, Ty::DedupStr);
+    let dd = |n: &str| {
+        let mut f = fld(n, Ty::DedupStr);
+        f.default = Some(Val::s("d"));
+        f
+    };
+    let mut push = |name: &str, steps: Vec<Step>, fields: Vec<FieldDescr>| {
+        out.push(Decl { name: name.into(), ty: rec(name, steps, fields), tags: vec!["struct", "dedup_evolved"], opt_spelling: 0 });
+    };
+    push("DS0", vec![Step::Added("tag".into())], vec![dd("tag"), d("name")]);
+    push("DS1", vec![Step::Added("tag".into()), Step::Removed("zz".into())], vec![d("name"), dd("tag"), d("other")]);
+    push("DS2", vec![Step::Added("n0".into()), Step::Added("n1".into())], vec![dd("n1"), d("a"), dd("n0")]);
+    push("DS3", vec![Step::MadeTransient("a".into()), Step::Added("n0".into())], vec![dd("n0"), d("b")]);
+    // the same inside an enum constructor
+    let var = VariantDescr {
+        name: "V".into(),
+        transient: false,
+        shape: 2,
+        record: RecordDescr { name: "V".into(), steps: vec![Step::Added("tag".into()), Step::Removed("a".into())], fields: vec![dd("tag"), d("name")] },
+    };
+    out.push(Decl {
+        name: "DSE".into(),
+        ty: Ty::Enum(Arc::new(EnumDescr { name: "DSE".into(), sorted: false, variants: vec![var, variant(VKind::Tuple1, "W")] })),
+        tags: vec!["enum", "dedup_evolved"],
+        opt_spelling: 0,
+    });
+}
+
+/// sorted enums whose constructor names differ in case, digits and underscores: name order is
+/// plain string order (every upper-case letter, digit and '_' sorts before every lower-case letter)
+fn mixed_case_enums(out: &mut Vec<Decl>, ext: &mut Vec<(String, String, usize)>) {
+    let sets: [&[&str]; 4] = [&["Ok", "OOM", "Done"], &["Io", "IOError", "Zed"], &["Ab", "AC", "A_b", "A1"], &["b", "C", "a", "_a"]];
+    for (i, names) in sets.iter().enumerate() {
+        for sorted in [true, false] {
+            let name = format!("SN{}{}", i, if sorted { "s" } else { "u" });
+            let variants: Vec<VariantDescr> = names.iter().map(|n| variant(VKind::Tuple1, n)).collect();
+            let ed = EnumDescr { name: name.clone(), sorted, variants };
+            out.push(Decl { name: name.clone(), ty: Ty::Enum(Arc::new(ed.clone())), tags: vec!["enum", "mixed_case"], opt_spelling: 0 });
+            let xname = format!("{name}X");
+            let (x, idx) = extend_enum(&ed, &xname, VKind::Unit);
+            // "Zzz" sorts after every name above except lower-case initial ones: use a name that is last
+            let mut x = x;
+            if sorted {
+                x.variants[0].name = "zzz".into();
+                x.variants[0].record.name = "zzz".into();
+            }
+            out.push(Decl { name: xname.clone(), ty: Ty::Enum(Arc::new(x)), tags: vec!["enum", "mixed_case", "extension"], opt_spelling: 0 });
+            ext.push((name, xname, idx));
+        }
+    }
+}
+
 pub fn make_enum(name: &str, kinds: &[VKind], sorted: bool) -> Ty {
     Ty::Enum(Arc::new(EnumDescr {
         name: name.into(),
@@ -508,8 +563,10 @@ pub fn build(thorough: bool) -> Universe {
         u.decls.push(Decl { name: name.into(), ty, tags: vec!["helper"], opt_spelling: 0 });
     }
     structs(&mut u.decls);
+    dedup_decls(&mut u.decls);
     let mut ext = Vec::new();
     enums(&mut u.decls, &mut ext);
+    mixed_case_enums(&mut u.decls, &mut ext);
     u.enum_ext = ext;
     histories(&mut u, if thorough { 3 } else { 2 });
     variant_histories(&mut u);
@@ -860,6 +917,9 @@ pub fn c12_elements() -> Vec<(&'static str, Ty)> {
         ("Option<u8>", Ty::Opt(Box::new(Ty::U8))),
         ("(u8, u8)", Ty::Tuple(vec![Ty::U8, Ty::U8])),
         ("()", Ty::Unit),
+        // one-byte elements other than u8 must NOT take the byte-array form
+        ("i8", Ty::I8),
+        ("bool", Ty::Bool),
     ]
 }
 
